@@ -361,3 +361,97 @@ class StackEagerReduce(Contract):
             return [("stacking_name_folds_the_parts_in_order", bool(ok))]
         ok = isinstance(result, tuple) and result[0] == "Stack" and result[1] == "s" and len(result[2]) == n and all(reduced_ok(r, k) for k, r in enumerate(result[2]))
         return [("parts_reduced_and_restacked_in_order", bool(ok))]
+
+
+# ==================================================================================================
+# C01 / C05: Independent -- its defining equation  g(x) == f(x_i = x[i]).reduce(add, i)
+# ==================================================================================================
+class FnT:
+    def __init__(self, rec, inputs):
+        self.rec, self.inputs = rec, OrderedDict((k, None) for k in inputs)
+
+    def reduce(self, op, names):
+        return FnT(("reduce", op, names, self.rec), [k for k in self.inputs if k != names])
+
+    def __getitem__(self, idx):
+        return FnT(("getitem", self.rec, idx), list(self.inputs) + ([idx] if isinstance(idx, str) else []))
+
+    def __eq__(self, o):
+        return isinstance(o, FnT) and o.rec == self.rec
+
+    def __hash__(self):
+        return hash(repr(self.rec))
+
+    def __repr__(self):
+        return "FnT(%r)" % (self.rec,)
+
+
+@register
+class IndependentEagerSubs(Contract):
+    """Independent.eager_subs(((reals_var, value),)): a Variable only renames the new real input; any other value v unfolds
+    the defining equation: Subs(fn, diag_var := v[bint_var]) summed over bint_var -- the bound batch variable indexes the
+    LEADING dimension of v, and it is the bound diag_var (not reals_var) that is substituted inside fn."""
+
+    props = ("C01", "C05")
+    file = "funsor/terms.py"
+    qualname = "Independent.eager_subs"
+    total = True
+    mutants = (("value substituted for the outer name inside fn", "result = Subs(self.fn, ((self.diag_var, value[self.bint_var]),))", "result = Subs(self.fn, ((self.reals_var, value[self.bint_var]),))"),)
+
+    def structures(self, tier):
+        yield "value=Variable", "var"
+        yield "value=term", "term"
+
+    def build(self, p, st):
+        class Self:
+            pass
+
+        s = Self()
+        s.fn = FnT("fn", ["i", "xi", "a"])
+        s.reals_var, s.bint_var, s.diag_var = "x", "i", "xi"
+        value = VarT("y", "dom") if st == "var" else FnT("value", ["b"])
+
+        class Ops:
+            add = "ADD"
+
+        def Subs(fn, pairs):
+            return FnT(("subs", fn.rec, tuple((k, v.rec) for k, v in pairs)), [k for k in fn.inputs if k not in dict(pairs)])
+
+        ns = dict(Variable=VarT, Independent=lambda fn, r, b, d: ("Independent", fn, r, b, d), Subs=Subs, ops=Ops, isinstance=isinstance, len=len)
+        return Ctx(args=(s, (("x", value),)), namespace=ns, s=s, value=value, st=st)
+
+    def ensures(self, ctx, result):
+        s = ctx.s
+        if ctx.st == "var":
+            return [("variable_renames_the_real_input", result == ("Independent", s.fn, "y", "i", "xi"))]
+        exp = ("reduce", "ADD", "i", ("subs", "fn", (("xi", ("getitem", "value", "i")),)))
+        return [("defining_equation_unfolded", isinstance(result, FnT) and result.rec == exp)]
+
+
+@register
+class EagerIndependentTrivial(Contract):
+    """eager_independent_trivial(fn, reals_var, bint_var, diag_var): when fn does not depend on diag_var the defining equation
+    reduces to fn summed over bint_var; otherwise the rule declines (returns None) -- it never drops the sum."""
+
+    props = ("C01", "C02")
+    file = "funsor/terms.py"
+    qualname = "eager_independent_trivial"
+    total = True
+    mutants = (("sum over the batch variable dropped", "        return fn.reduce(ops.add, bint_var)", "        return fn"),)
+
+    def structures(self, tier):
+        yield "fn mentions diag_var", True
+        yield "fn does not mention diag_var", False
+
+    def build(self, p, st):
+        fn = FnT("fn", ["i", "a"] + (["xi"] if st else []))
+
+        class Ops:
+            add = "ADD"
+
+        return Ctx(args=(fn, "x", "i", "xi"), namespace=dict(ops=Ops), fn=fn, st=st)
+
+    def ensures(self, ctx, result):
+        if ctx.st:
+            return [("declines_when_fn_depends_on_diag_var", result is None)]
+        return [("constant_in_diag_var_means_sum_over_the_batch_variable", isinstance(result, FnT) and result.rec == ("reduce", "ADD", "i", "fn"))]
